@@ -586,6 +586,7 @@ unsafe fn copy_out(pk: usize, off: usize, dst: *mut u8, n: usize) {
 }
 #[no_mangle]
 pub unsafe extern "C" fn recvmsg(fd: c_int, msg: *mut msghdr, flags: c_int) -> ssize_t {
+    EOF_RECVS = 0; // a new receive starts: earlier end-of-stream results belong to other messages
     let (pk, r) = wait_packet(fd);
     if pk < 0 {
         return r;
